@@ -1,6 +1,7 @@
 package rules
 
 import (
+	"go/ast"
 	"fmt"
 	"go/token"
 	"go/types"
@@ -15,7 +16,7 @@ import (
 
 func init() {
 	Registry["C16"] = Set{
-		Explanation: "Decides structural clauses of hostile-input safety: B1 recover barriers — edf.Decode and the receive worker install a deferred recover (the worker's closes only its connection), and every goroutine started in net/proto, net/handshake and node's network code either has such a barrier or reaches peer-byte handling only through the functions proved by B2; B2 code that runs without a barrier proves its bounds: in the frame cutter the success return is dominated by 'declared length >= 8' and 'buffered >= declared length' and cuts the buffer to the declared length, the header read is dominated by a length guard whose bound is >= 6, every constant index the serve loop applies to a received frame is < 8, the handshake reader indexes only below its guard; the one relational site (tail = buf.B[l:total]) is accepted only in its recognised shape; B3 no length read from the wire reaches an allocator (reflect.MakeSlice/MakeMapWithSize/ArrayOf, make, Buffer.Allocate/Extend) without a dominating comparison against the remaining input or a constant cap whose failing edge leaves; B4 the handshake reader caps the declared message size and arms a read deadline before every read when a timeout is configured; the frame cutter compares the declared length with the node's max message size before it continues buffering. Added while probing: B1 follows dynamic calls through the VTA call graph. B5 pooled objects across calls — when a function may release a pooled buffer it received as a parameter (directly, through a callee resolved statically or by the VTA call graph, or deferred), no caller releases or re-dispatches the same object on a path compatible with the callee's releasing path; paths are correlated through the nil-ness of the callee's error result (a double release hands one object to two later users: frames of unrelated connections overwrite each other, a request is presented twice or answered with another request's reference).",
+		Explanation: "Decides structural clauses of hostile-input safety: B1 recover barriers — edf.Decode and the receive worker install a deferred recover (the worker's closes only its connection), and every goroutine started in net/proto, net/handshake and node's network code either has such a barrier or reaches peer-byte handling only through the functions proved by B2; B2 code that runs without a barrier proves its bounds: in the frame cutter the success return is dominated by 'declared length >= 8' and 'buffered >= declared length' and cuts the buffer to the declared length, the header read is dominated by a length guard whose bound is >= 6, every constant index the serve loop applies to a received frame is < 8, the handshake reader indexes only below its guard; the one relational site (tail = buf.B[l:total]) is accepted only in its recognised shape; B3 no length read from the wire reaches an allocator (reflect.MakeSlice/MakeMapWithSize/ArrayOf, make, Buffer.Allocate/Extend) without a dominating comparison against the remaining input or a constant cap whose failing edge leaves; B4 the handshake reader caps the declared message size and arms a read deadline before every read when a timeout is configured; the frame cutter compares the declared length with the node's max message size before it continues buffering. Added while probing: B1 follows dynamic calls through the VTA call graph. B5 pooled objects across calls — when a function may release a pooled buffer it received as a parameter (directly, through a callee resolved statically or by the VTA call graph, or deferred), no caller releases or re-dispatches the same object on a path compatible with the callee's releasing path; paths are correlated through the nil-ness of the callee's error result (a double release hands one object to two later users: frames of unrelated connections overwrite each other, a request is presented twice or answered with another request's reference). B3p the length of an array travels inside the folded TYPE: every reflect.New / MakeSlice of a type unfolded from the packet is dominated by the proportion predicate (n*T.Size() against the bytes left), directly or because getDecoder applies it to every type it unfolds; decoders unfolded from a local encoder's prefix are trusted. B6 the decoder that picks the next decoder from the packet's bytes compares a nesting counter with a constant before the dispatch (a stack overflow is fatal, no recover catches it). B1h every exported handshake entry point that reads a peer message turns a panic into its error result (the acceptor's goroutine has no recover and works on decoded VALUES). B3q integers of a handshake message that size local resources (ConnectionOptions) are checked against a lower and an upper constant bound before they are taken over. B7 = C11.E12 for hostile input: no counted element loop over elements that consume no input.",
 		NotDecided: []string{
 			"re-encode equality of successfully decoded values",
 			"CPU time of decoding, effects on other connections' throughput",
@@ -31,6 +32,11 @@ func runC16(p *load.Program, r *core.Report) {
 	pooledRelease(p, r, "C16.B5 no-double-release-across-calls", "C16.B5", 15, "buffer", func(*ssa.Function) bool { return true })
 	c16Bounds(p, r)
 	c16Alloc(p, r)
+	c16PeerTypedAlloc(p, r)
+	c16DepthGuard(p, r)
+	c16HandshakeBarriers(p, r)
+	c16PeerSizes(p, r)
+	c11NoProgressElements(p, r, "C16.B7 no-element-loop-without-progress", "C16.B7")
 	c16Caps(p, r)
 }
 
@@ -723,7 +729,7 @@ func evalIvalGuarded(v ssa.Value, env *ivalEnv) ival {
 // c16Alloc: B3
 func c16Alloc(p *load.Program, r *core.Report) {
 	rule := "C16.B3 no-unsanitised-length-to-allocator"
-	r.Floor(rule, 8)
+	r.Floor(rule, 7)
 	seq := map[string]int{}
 	sinkIn := map[*ssa.Function]bool{}
 	defer func() {
@@ -769,7 +775,9 @@ func c16Alloc(p *load.Program, r *core.Report) {
 				case sf.Pkg != nil && sf.Pkg.Pkg.Path() == "reflect" && (sf.Name() == "MakeSlice" || sf.Name() == "MakeMapWithSize"):
 					lenArgs, what = cc.Args[1:], "reflect."+sf.Name()
 				case sf.Pkg != nil && sf.Pkg.Pkg.Path() == "reflect" && sf.Name() == "ArrayOf":
-					lenArgs, what = cc.Args[:1], "reflect.ArrayOf"
+					// makes a type, allocates nothing in proportion to n: the length travels inside the
+					// type and is judged where values of that type are allocated (B3p)
+					return
 				case (sf.Name() == "Allocate" || sf.Name() == "Extend") && sf.Signature.Recv() != nil && namedOf(sf.Signature.Recv().Type()) == "lib.Buffer":
 					lenArgs, what = cc.Args[1:], "Buffer."+sf.Name()
 				default:
@@ -995,3 +1003,540 @@ func c16Caps(p *load.Program, r *core.Report) {
 }
 
 var _ = load.Module
+
+// c16PeerTypedAlloc: B3p — the length of an array is part of the folded TYPE the peer sends, so it
+// reaches no allocator as a number: it sits in the reflect.Type every holder of that type
+// allocates. Every allocation in net/edf of a value whose type was unfolded from the packet
+// (reflect.New(T) / reflect.MakeSlice(T, n, n) with T a decoder's Type obtained from
+// decodeType/getDecoder, or a local reflect.ArrayOf/SliceOf/MapOf result) is dominated by the true
+// edge of the proportion predicate — the function that compares n*T.Size() with the length of the
+// remaining packet — on that type; a type that came out of getDecoder is covered when getDecoder
+// itself applies the predicate to every type it unfolds. Decoders built from a LOCAL type's encoder
+// prefix (registration) are trusted: their sizes are fixed by the program.
+func c16PeerTypedAlloc(p *load.Program, r *core.Report) {
+	rule := "C16.B3p peer-typed-values-allocated-in-proportion"
+	r.Floor(rule, 12)
+	fns := funcsOfPkgs(p, "net/edf")
+	// the proportion predicate, recognised by shape
+	var pred *ssa.Function
+	for _, f := range fns {
+		if f.Parent() != nil || len(f.Params) != 3 || f.Signature.Results().Len() != 1 {
+			continue
+		}
+		if f.Params[0].Type().String() != "reflect.Type" || f.Signature.Results().At(0).Type().String() != "bool" {
+			continue
+		}
+		if _, ok := f.Params[2].Type().Underlying().(*types.Slice); !ok {
+			continue
+		}
+		size, ln := false, false
+		eachInstr(f, func(in ssa.Instruction) {
+			if cc := callCommon(in); cc != nil {
+				if cc.IsInvoke() && cc.Method.Name() == "Size" && cc.Value == ssa.Value(f.Params[0]) {
+					size = true
+				}
+				if b, ok := cc.Value.(*ssa.Builtin); ok && b.Name() == "len" && len(cc.Args) == 1 && cc.Args[0] == ssa.Value(f.Params[2]) {
+					ln = true
+				}
+			}
+		})
+		if size && ln {
+			pred = f
+		}
+	}
+	if pred == nil {
+		r.Bad(rule, "C16.B3p|predicate", "", "", "a proportion predicate (n * T.Size() against len(packet)) exists in net/edf", "none found: values of peer-declared types (arrays whose length is part of the type) are allocated without any relation to the size of the input")
+		return
+	}
+	isPred := func(in ssa.Instruction, t ssa.Value) bool {
+		c, ok := in.(*ssa.Call)
+		if !ok || staticCallee(c.Common()) != pred {
+			return false
+		}
+		return sameTypeValue(c.Common().Args[0], t)
+	}
+	predGuards := func(t ssa.Value, at ssa.Instruction) bool {
+		ok := false
+		eachInstr(at.Parent(), func(in ssa.Instruction) {
+			if !isPred(in, t) {
+				return
+			}
+			tr, _, complete := boolEdges(in.(*ssa.Call))
+			if complete && len(tr) > 0 && edgesDominate(tr, at) {
+				ok = true
+			}
+		})
+		return ok
+	}
+	// getDecoder-like functions: return a decoder they obtained from decodeType only behind the predicate
+	unfold := p.Func("net/edf", "", "decodeType")
+	checkedSource := map[*ssa.Function]bool{}
+	if unfold != nil {
+		for _, f := range fns {
+			if f.Parent() != nil || f == unfold {
+				continue
+			}
+			calls := 0
+			okAll := true
+			eachInstr(f, func(in ssa.Instruction) {
+				c, ok := in.(*ssa.Call)
+				if !ok || staticCallee(c.Common()) != unfold {
+					return
+				}
+				// returns a *decoder? only then it is a source
+				if f.Signature.Results().Len() == 0 || !strings.HasSuffix(f.Signature.Results().At(0).Type().String(), "decoder") {
+					return
+				}
+				calls++
+				dec := tupleExtract(c, 0)
+				// every successful return reachable from here passes the predicate on dec.Type
+				hit := reaches([]Point{after(in)}, func(x ssa.Instruction) bool {
+					cc, ok := x.(*ssa.Call)
+					if !ok || staticCallee(cc.Common()) != pred {
+						return false
+					}
+					b, path, okp := fieldPath(cc.Common().Args[0])
+					return okp && len(path) == 1 && path[0] == "Type" && canon(b) == canon(dec)
+				}, func(x ssa.Instruction) bool {
+					rt, ok := x.(*ssa.Return)
+					return ok && len(rt.Results) > 0 && rt.Results[0] == dec
+				})
+				if hit != nil {
+					okAll = false
+				}
+			})
+			if calls > 0 && okAll {
+				checkedSource[f] = true
+			}
+		}
+	}
+	seq := map[string]int{}
+	for _, f := range fns {
+		eachInstr(f, func(in ssa.Instruction) {
+			cc := callCommon(in)
+			if cc == nil {
+				return
+			}
+			sf := staticCallee(cc)
+			if sf == nil || sf.Pkg == nil || sf.Pkg.Pkg.Path() != "reflect" || (sf.Name() != "New" && sf.Name() != "MakeSlice") {
+				return
+			}
+			t := cc.Args[0]
+			if sf.Name() == "MakeSlice" {
+				if l, ok := constInt(cc.Args[1]); ok && l == 0 {
+					if c, ok := constInt(cc.Args[2]); ok && c == 0 {
+						return // an empty slice: nothing is allocated for elements
+					}
+				}
+			}
+			origin, trusted := typeOrigin(t, unfold, checkedSource)
+			if origin == "" {
+				return // a local program type
+			}
+			fn := fname(f)
+			seq[fn]++
+			key := fmt.Sprintf("C16.B3p|%s|reflect.%s#%d", fn, sf.Name(), seq[fn])
+			inst := "a value of a type unfolded from the packet is allocated only in proportion to the remaining input"
+			pos := p.Pos(in.Pos())
+			switch {
+			case trusted != "":
+				r.OK(rule, key, fn, pos, inst, origin+": "+trusted)
+			case predGuards(t, in):
+				r.OK(rule, key, fn, pos, inst, origin+"; dominated by the true edge of "+pred.Name()+" on that type")
+			case sf.Name() == "MakeSlice" && sliceElemGuard(t, in, pred):
+				r.OK(rule, key, fn, pos, inst, origin+"; n elements: dominated by the true edge of "+pred.Name()+" on the element type with n")
+			default:
+				r.Bad(rule, key, fn, pos, inst, origin+": allocated without the proportion check — the peer declares an array type of 2^28 elements in a dozen bytes and the node allocates gigabytes before reading any element")
+			}
+		})
+	}
+}
+
+// sameTypeValue: two reflect.Type operands denote the same type value (same SSA value, or loads of
+// the same field of the same object).
+func sameTypeValue(a, b ssa.Value) bool {
+	if a == b || canon(a) == canon(b) {
+		return true
+	}
+	ba, pa, oka := fieldPath(a)
+	bb, pb, okb := fieldPath(b)
+	return oka && okb && canon(ba) == canon(bb) && strings.Join(pa, ".") == strings.Join(pb, ".")
+}
+
+// typeOrigin classifies a reflect.Type operand: "" = a type of the local program; otherwise where it
+// comes from, and a non-empty trusted reason when no check is needed.
+func typeOrigin(t ssa.Value, unfold *ssa.Function, checked map[*ssa.Function]bool) (origin, trusted string) {
+	// local reflect.XOf result (possibly captured by a decoder closure)
+	if c, ok := canon(t).(*ssa.Call); ok {
+		if sf := staticCallee(c.Common()); sf != nil && sf.Pkg != nil && sf.Pkg.Pkg.Path() == "reflect" {
+			switch sf.Name() {
+			case "ArrayOf", "SliceOf", "MapOf":
+				return "type made by reflect." + sf.Name() + " while unfolding", ""
+			}
+		}
+	}
+	b, path, ok := fieldPath(t)
+	if !ok || len(path) == 0 || path[len(path)-1] != "Type" {
+		if fv, isFv := t.(*ssa.FreeVar); isFv {
+			if rb := resolveFreeVar(fv); rb != nil {
+				return typeOrigin(rb, unfold, checked)
+			}
+		}
+		return "", ""
+	}
+	dec := canon(b)
+	if len(path) >= 2 && path[len(path)-2] == "decoder" {
+		return "state.decoder.Type", "the decoder installed by the caller for this very value (its allocation was judged where the decoder was obtained)"
+	}
+	if ex, isEx := dec.(*ssa.Extract); isEx {
+		if c, isCall := ex.Tuple.(*ssa.Call); isCall {
+			g := staticCallee(c.Common())
+			switch {
+			case g == unfold:
+				// unfolded from what? a local encoder's prefix is trusted
+				if _, p2, okp := fieldPath(c.Common().Args[0]); okp && len(p2) > 0 && p2[len(p2)-1] == "Prefix" {
+					return "decoder unfolded from a local encoder's prefix", "local type, size fixed by the program"
+				}
+				return "decoder unfolded from the packet (decodeType)", ""
+			case g != nil && checked[g]:
+				return "decoder from " + g.Name(), g.Name() + " applies the proportion predicate to every type it unfolds"
+			case g != nil && strings.HasSuffix(g.Signature.Results().At(0).Type().String(), "decoder"):
+				return "decoder from " + g.Name(), ""
+			}
+		}
+	}
+	return "", ""
+}
+
+// sliceElemGuard: MakeSlice(sliceType, n, n) is dominated by pred(elemType, n, packet) where sliceType
+// was made by SliceOf(elemType).
+func sliceElemGuard(t ssa.Value, at ssa.Instruction, pred *ssa.Function) bool {
+	var elem ssa.Value
+	tv := canon(t)
+	if c, ok := tv.(*ssa.Call); ok {
+		if sf := staticCallee(c.Common()); sf != nil && sf.Name() == "SliceOf" {
+			elem = c.Common().Args[0]
+		}
+	}
+	ok := false
+	eachInstr(at.Parent(), func(in ssa.Instruction) {
+		c, isCall := in.(*ssa.Call)
+		if !isCall || staticCallee(c.Common()) != pred {
+			return
+		}
+		if elem != nil && !sameTypeValue(c.Common().Args[0], elem) {
+			// compare through free variables
+			a0 := c.Common().Args[0]
+			ba, pa, oka := fieldPath(a0)
+			be, pe, oke := fieldPath(elem)
+			if !(oka && oke && canon(ba) == canon(be) && strings.Join(pa, ".") == strings.Join(pe, ".")) {
+				return
+			}
+		}
+		tr, _, complete := boolEdges(c)
+		if complete && len(tr) > 0 && edgesDominate(tr, at) {
+			ok = true
+		}
+	})
+	return ok
+}
+
+// c16DepthGuard: B6 — a decoder that picks the next decoder from the bytes of the packet
+// (getDecoder) and calls it recurses as deep as the peer says, one byte per level: a stack overflow
+// is a fatal error that no recover barrier catches. Every function with the decoder signature that
+// dispatches this way compares a nesting counter with a constant bound before the dispatch and
+// returns an error beyond it.
+func c16DepthGuard(p *load.Program, r *core.Report) {
+	rule := "C16.B6 data-driven-recursion-bounded"
+	r.Floor(rule, 1)
+	get := p.Func("net/edf", "", "getDecoder")
+	if get == nil {
+		r.Unk(rule, "C16.B6|getDecoder", "", "", "the packet-driven decoder lookup is found", "net/edf.getDecoder not found")
+		return
+	}
+	for _, f := range funcsOfPkgs(p, "net/edf") {
+		if f.Parent() != nil || len(f.Params) != 3 || f.Signature.Results().Len() != 3 {
+			continue
+		}
+		if !strings.HasSuffix(f.Params[2].Type().String(), "stateDecode") {
+			continue
+		}
+		var dispatch []ssa.Instruction
+		eachInstr(f, func(in ssa.Instruction) {
+			c, ok := in.(*ssa.Call)
+			if !ok || staticCallee(c.Common()) != get {
+				return
+			}
+			dec := tupleExtract(c, 0)
+			// calls of dec.Decode
+			eachInstr(f, func(x ssa.Instruction) {
+				c2, ok := x.(*ssa.Call)
+				if !ok || c2.Common().IsInvoke() || c2.Common().StaticCallee() != nil {
+					return
+				}
+				if b, path, okp := fieldPath(c2.Common().Value); okp && len(path) == 1 && path[0] == "Decode" && canon(b) == canon(dec) {
+					dispatch = append(dispatch, x)
+				}
+			})
+		})
+		if len(dispatch) == 0 {
+			continue
+		}
+		fn := fname(f)
+		key := "C16.B6|" + fn
+		inst := "the recursion chosen by the packet's bytes is cut at a constant nesting depth"
+		// a guard: If on (counter >= const) / (counter > const) where counter is loaded through a pointer
+		// reachable from the state parameter, whose taken edge returns an error, dominating every dispatch
+		okAll := true
+		for _, d := range dispatch {
+			guarded := false
+			eachInstr(f, func(in ssa.Instruction) {
+				b, ok := in.(*ssa.BinOp)
+				if !ok || (b.Op != token.GEQ && b.Op != token.GTR && b.Op != token.LSS && b.Op != token.LEQ) {
+					return
+				}
+				var cnt ssa.Value
+				if _, isC := constInt(b.Y); isC {
+					cnt = b.X
+				} else if _, isC := constInt(b.X); isC {
+					cnt = b.Y
+				}
+				ld, isLd := cnt.(*ssa.UnOp)
+				if cnt == nil || !isLd || ld.Op != token.MUL {
+					return
+				}
+				// the counter lives behind the decode state (state.options.depth or a field of state)
+				base, _, okp := fieldPath(ld.X)
+				if !okp {
+					if l2, ok := ld.X.(*ssa.UnOp); ok {
+						base, _, okp = fieldPath(l2.X)
+					}
+				}
+				if !okp || canon(base) != ssa.Value(f.Params[2]) {
+					return
+				}
+				t, fl, complete := boolEdges(b)
+				if !complete {
+					return
+				}
+				within := fl
+				if b.Op == token.LSS || b.Op == token.LEQ {
+					within = t
+				}
+				if edgesDominate(within, d) {
+					// and the counter really counts: every path from the guard to the dispatch adds one to it
+					isInc := func(x ssa.Instruction) bool {
+						st, ok := x.(*ssa.Store)
+						if !ok || (st.Addr != ld.X && canon(st.Addr) != canon(ld.X)) {
+							return false
+						}
+						add, ok := st.Val.(*ssa.BinOp)
+						if !ok || add.Op != token.ADD {
+							return false
+						}
+						c, okc := constInt(add.Y)
+						return okc && c == 1
+					}
+					if reaches(edgePoints(within), isInc, func(x ssa.Instruction) bool { return x == d }) == nil {
+						guarded = true
+					}
+				}
+			})
+			if !guarded {
+				okAll = false
+			}
+		}
+		if okAll {
+			r.OK(rule, key, fn, p.Pos(f.Pos()), inst, fmt.Sprintf("%d packet-driven dispatch call(s), each behind the within-bound edge of a comparison of the nesting counter with a constant", len(dispatch)))
+		} else {
+			r.Bad(rule, key, fn, p.Pos(dispatch[0].Pos()), inst, "the function looks the next decoder up in the packet and calls it without any bound on the nesting: a few megabytes of one repeated byte overflow the stack — a fatal error, the node dies")
+		}
+	}
+}
+
+// c16HandshakeBarriers: B1h — the handshake runs in the acceptor's (or the dialer's) goroutine, which
+// has no recover of its own, and it works on VALUES decoded from the peer's messages (maps of
+// errors, type assertions, sizes): not only byte indexing can panic there. Every exported entry
+// point of the handshake that reads a message from the peer has a deferred recover (under
+// lib.Recover) that turns the panic into its error result.
+func c16HandshakeBarriers(p *load.Program, r *core.Report) {
+	rule := "C16.B1h handshake-entry-points-recover"
+	r.Floor(rule, 3)
+	dec := p.Func("net/edf", "", "Decode")
+	hsT := p.Named("net/handshake", "handshake")
+	if dec == nil || hsT == nil {
+		r.Unk(rule, "C16.B1h|anchors", "", "", "edf.Decode and the handshake type are found", "missing")
+		return
+	}
+	reachesDecode := func(f *ssa.Function) bool {
+		seen := map[*ssa.Function]bool{f: true}
+		work := []*ssa.Function{f}
+		for len(work) > 0 {
+			g := work[len(work)-1]
+			work = work[:len(work)-1]
+			hit := false
+			for _, h := range family(g) {
+				eachInstr(h, func(in ssa.Instruction) {
+					if cc := callCommon(in); cc != nil {
+						if sf := staticCallee(cc); sf != nil {
+							if sf == dec {
+								hit = true
+							} else if pkgSuffix(sf) == "net/handshake" && !seen[sf] {
+								seen[sf] = true
+								work = append(work, sf)
+							}
+						}
+					}
+				})
+			}
+			if hit {
+				return true
+			}
+		}
+		return false
+	}
+	for _, f := range funcsOfPkgs(p, "net/handshake") {
+		if f.Parent() != nil || !recvIs(f, hsT) || !ast.IsExported(f.Name()) || !reachesDecode(f) {
+			continue
+		}
+		fn := fname(f)
+		key := "C16.B1h|" + fn
+		inst := "a panic while handling the peer's handshake messages becomes the error result of " + f.Name()
+		cl, ok := hasRecoverDefer(f)
+		if !ok {
+			r.Bad(rule, key, fn, p.Pos(f.Pos()), inst, "no deferred recover: a malformed (but decodable) message — a nil error in the error table, an unexpected type — panics in the acceptor's goroutine and takes the node down")
+			continue
+		}
+		stores := false
+		eachInstr(cl, func(in ssa.Instruction) {
+			if st, ok := in.(*ssa.Store); ok {
+				if _, isFV := st.Addr.(*ssa.FreeVar); isFV && st.Val.Type().String() == "error" {
+					stores = true
+				}
+			}
+		})
+		if stores {
+			r.OK(rule, key, fn, p.Pos(f.Pos()), inst, "deferred recover stores the error result")
+		} else {
+			r.Bad(rule, key, fn, p.Pos(f.Pos()), inst, "the recover handler does not set the error result: the handshake would be reported successful with a half-filled result")
+		}
+	}
+}
+
+// c16PeerSizes: B3q — integer fields of a decoded handshake message that become sizes on this side
+// (the number of links to dial, of queues to make, a divisor) are range-checked on both sides before
+// they are copied into the handshake result.
+func c16PeerSizes(p *load.Program, r *core.Report) {
+	rule := "C16.B3q peer-declared-sizes-range-checked"
+	r.Floor(rule, 1)
+	for _, f := range funcsOfPkgs(p, "net/handshake") {
+		seq := 0
+		eachInstr(f, func(in ssa.Instruction) {
+			st, ok := in.(*ssa.Store)
+			if !ok {
+				return
+			}
+			own, fl := fieldOwner(st.Addr)
+			// the options the handshake hands to the protocol layer: numbers that size local resources
+			// (PeerMaxMessageSize in the result only limits what this side SENDS: nothing to check)
+			if own == nil || own.Obj().Name() != "ConnectionOptions" || !isIntegerType(st.Val.Type()) {
+				return
+			}
+			// the value is a field of a message that came out of a type assertion on a decoded value
+			ld, isLd := st.Val.(*ssa.UnOp)
+			if !isLd || ld.Op != token.MUL {
+				return
+			}
+			base, path, okp := fieldPath(ld.X)
+			if !okp || len(path) != 1 {
+				return
+			}
+			fromPeer := false
+			switch b := base.(type) {
+			case *ssa.Alloc:
+				for _, rf := range *b.Referrers() {
+					if s2, ok := rf.(*ssa.Store); ok && s2.Addr == ssa.Value(b) {
+						v := s2.Val
+						if ex, ok := v.(*ssa.Extract); ok {
+							v = ex.Tuple
+						}
+						if _, isTA := v.(*ssa.TypeAssert); isTA {
+							fromPeer = true
+						}
+					}
+				}
+			case *ssa.TypeAssert:
+				fromPeer = true
+			case *ssa.Extract:
+				if _, isTA := b.Tuple.(*ssa.TypeAssert); isTA {
+					fromPeer = true
+				}
+			}
+			if !fromPeer {
+				return
+			}
+			seq++
+			fn := fname(f)
+			key := fmt.Sprintf("C16.B3q|%s|%s.%s#%d", fn, own.Obj().Name(), fl, seq)
+			inst := "the " + path[0] + " the peer announced is checked against a lower and an upper bound before it is taken over"
+			lower, upper := false, false
+			eachInstr(f, func(x ssa.Instruction) {
+				b, ok := x.(*ssa.BinOp)
+				if !ok {
+					return
+				}
+				var other ssa.Value
+				side := 0
+				if sameTypeValue(b.X, ld) {
+					other, side = b.Y, 1
+				} else if sameTypeValue(b.Y, ld) {
+					other, side = b.X, 2
+				}
+				if side == 0 {
+					return
+				}
+				if _, isC := constInt(other); !isC {
+					return
+				}
+				t, fls, complete := boolEdges(b)
+				if !complete {
+					return
+				}
+				op := b.Op
+				if side == 2 { // c OP v  ==  v OP' c
+					switch op {
+					case token.LSS:
+						op = token.GTR
+					case token.LEQ:
+						op = token.GEQ
+					case token.GTR:
+						op = token.LSS
+					case token.GEQ:
+						op = token.LEQ
+					}
+				}
+				switch op {
+				case token.LSS, token.LEQ: // v < c taken => too small: the store must be behind the false edge
+					if edgesDominate(fls, in) {
+						lower = true
+					}
+					if edgesDominate(t, in) {
+						upper = true
+					}
+				case token.GTR, token.GEQ:
+					if edgesDominate(fls, in) {
+						upper = true
+					}
+					if edgesDominate(t, in) {
+						lower = true
+					}
+				}
+			})
+			if lower && upper {
+				r.OK(rule, key, fn, p.Pos(in.Pos()), inst, "dominated by the in-range edges of a lower-bound and an upper-bound comparison with constants")
+			} else {
+				r.Bad(rule, key, fn, p.Pos(in.Pos()), inst, fmt.Sprintf("lower bound checked: %v, upper bound checked: %v — 0 becomes a divisor in the goroutine that serves the link (no recover there: the node dies), a huge value the number of queues and links to create", lower, upper))
+			}
+		})
+	}
+}
